@@ -2,6 +2,7 @@
   C09 — Generated ISO reads are position-independent (one fixed byte string).
 -/
 import Ps3.Proof.Viso
+import Ps3.Proof.BuildWF
 namespace Ps3.Props.C09
 open Ps3 Ps3.Viso Ps3.Spec.Viso
 
@@ -56,6 +57,33 @@ theorem seek_out_of_range (rd : Nat → Nat → Bytes) (total cur : Nat) (off : 
     is sound for `WF` (so each explored tree satisfies the hypothesis of the theorems above). -/
 theorem wf_check_sound (img : Image) (cf : Nat → Content) (h : wfB img cf = true) : WF img cf :=
   wfB_sound img cf h
+
+/-- **Every image `build` produces is well-formed** — for every world (tree shape, names, sizes,
+    symlinks), every root and both modes: the metadata area is exactly as long as the layout
+    arithmetic assumed (descriptors, four path tables, both directory hierarchies), the member files
+    occupy consecutive sector runs in scan order right behind it with their inodes' sizes, then the
+    pad area. The hypothesis `WF` of the theorems above is therefore always met by the code's images. -/
+theorem build_wf (w : World) (root : Path) (ps3 : Bool) (clk : Clock) (filler : Bytes) (img : Image)
+    (h : build w root ps3 clk filler = some img) : WF img (Proof.BuildWF.cfOf w) :=
+  Proof.BuildWF.build_wf w root ps3 clk filler img h
+
+/-- … hence, unconditionally: any read of any generated image is a slice of its one canonical string. -/
+theorem built_read_eq_slice (w : World) (root : Path) (ps3 : Bool) (clk : Clock) (filler : Bytes) (img : Image)
+    (h : build w root ps3 clk filler = some img) (off n : Nat) :
+    img.read (Proof.BuildWF.cfOf w) off n = slice (flat img (Proof.BuildWF.cfOf w)) off n :=
+  read_eq_slice img _ (build_wf w root ps3 clk filler img h) off n
+
+theorem built_ops_eq_spec (w : World) (root : Path) (ps3 : Bool) (clk : Clock) (filler : Bytes) (img : Image)
+    (h : build w root ps3 clk filler = some img) (ops : List Op) (cur : Nat) :
+    runOps (img.read (Proof.BuildWF.cfOf w)) img.totalSize cur ops =
+      runOps (slice (flat img (Proof.BuildWF.cfOf w))) img.totalSize cur ops :=
+  ops_eq_spec img _ (build_wf w root ps3 clk filler img h) ops cur
+
+/-- the announced size is a whole number of sectors and is the length of the canonical string -/
+theorem built_size (w : World) (root : Path) (ps3 : Bool) (clk : Clock) (filler : Bytes) (img : Image)
+    (h : build w root ps3 clk filler = some img) :
+    (flat img (Proof.BuildWF.cfOf w)).length = img.totalSize :=
+  flat_length img _ (build_wf w root ps3 clk filler img h)
 
 /-- non-vacuity: a concrete image (one 3-byte file in the first sector, then the pad area) is
     well-formed, and a read crossing file data → padding is the slice -/
